@@ -183,6 +183,10 @@ class C18(Property):
         ctx.count('%s_%s' % (case['kind'], exp[0]))
         if 'panic' in r or 'crash' in r:
             return Failure('panic', case=case, reply=r, python=exp)
+        if exp[0] == 'ok' and any(0xD800 <= ord(c) <= 0xDFFF for c in exp[1]):
+            # Python's answer holds a lone surrogate, which a Rust String cannot represent: only totality is demanded
+            ctx.count('unrepresentable_surrogate_result')
+            return None
         if exp[0] == 'ok':
             if 'ok' not in r:
                 return Failure('rejects_valid', case=case, reply=r, python=exp[1])
